@@ -6,7 +6,7 @@ import ast
 import itertools
 from typing import Dict, List, Optional, Set
 
-from ..astutil import attr_stores as _attr_stores, test_atoms, nested_functions, calls_in, dotted, name_stores, unparse, walk_local, walk_stmts
+from ..astutil import attr_stores as _attr_stores, test_atoms, nested_functions, calls_in, dotted, name_stores, own_exprs, unparse, walk_local, walk_stmts
 from ..cfg import no_exc
 from ..report import Registry, chain, sub
 from ._helpers_rules_d import attr_store_nodes, call_nodes, callee_is, const_is, guard_atom_set, qualname
@@ -21,7 +21,8 @@ R = Registry(
         "only by the enumerated functions and is cleared only where the modified flag is reset or the state leaves "
         "its session on the same path; attaching an already-modified state re-establishes the strong reference; "
         "the identity map itself stores states (weakly referencing their objects) and keeps modified states in a "
-        "strong set."
+        "strong set; a state whose modified flag is reset leaves that strong set on the same path, and every caller of a "
+        "flag-resetting function hands in the identity map (or deals with a state that is in no session)."
     ),
     not_decided="garbage-collector timing; that every mutation API reaches _modified_event (C38/C49 cover mutators).",
 )
@@ -595,6 +596,219 @@ def _anc_stmts(cf, st):
         cur = cf.pm.get(cur)
 
 
+# ---------------------------------------------------------------------- R6: the strong `_modified` set follows the flag
+# `IdentityMap._modified` is the strong set that pins dirty states (R1 / R4 put them in).  Its members must be modified:
+# a state whose `modified` flag is reset (flush, full load, merge(load=False), expire) loses its strong reference at the
+# same place (R2), so if it stayed in the set the set would hold a clean, weakly referenced state -- once the application
+# drops the object the state is dead and the next flush trips over it ("Failed to add object to the flush context").
+# The functions that reset the flag do not know the identity map themselves: it is *handed in* (the map, or its
+# `_modified` set).  So the clause has two halves: inside the resetter the hand-in is used on every path to the reset,
+# and every caller hands in the identity map -- or is provably dealing with a state that is in no session.
+def _enclosing_fn_chain(pm, node):
+    """function nodes enclosing `node`, innermost first"""
+    out = []
+    cur = pm.get(node)
+    while cur is not None:
+        if isinstance(cur, (ast.FunctionDef, ast.AsyncFunctionDef)):
+            out.append(cur)
+        cur = pm.get(cur)
+    return out
+
+
+def _fn_params(fn) -> List[str]:
+    a = fn.args
+    return [x.arg for x in a.posonlyargs + a.args + a.kwonlyargs]
+
+
+def _scope_env(chain_) -> Dict[str, ast.expr]:
+    """what a name read in the innermost function of `chain_` stands for: once-bound locals of it and of the enclosing
+    functions (closure variables), an inner binding / parameter shadowing the outer ones"""
+    env: Dict[str, ast.expr] = {}
+    for fn in reversed(chain_):
+        for nm in set(_fn_params(fn)) | {n for n, _, _ in name_stores(fn)}:
+            env.pop(nm, None)
+        env.update(single_defs(fn))
+    return env
+
+
+def _param_default_is_none(fn, name) -> Optional[bool]:
+    """True: parameter has default None; False: no default; None: some other default"""
+    a = fn.args
+    pos = a.posonlyargs + a.args
+    dflt = dict(zip([x.arg for x in pos[len(pos) - len(a.defaults):]], a.defaults))
+    dflt.update({x.arg: d for x, d in zip(a.kwonlyargs, a.kw_defaults) if d is not None})
+    if name not in dflt:
+        return False
+    return True if const_is(dflt[name], None) else None
+
+
+class _Resetter:
+    __slots__ = ("f", "handle", "kind", "why")
+
+    def __init__(self, f, handle, kind, why):
+        self.f, self.handle, self.kind, self.why = f, handle, kind, why
+
+
+def _handle_of(x, env, params, recv):
+    """classify the receiver `x` of `x.discard(<state>)`: ('set', param) -- a set handed in; ('map', param) -- an identity
+    map handed in (`param._modified`); ('own', None) -- the state's own identity map; else None"""
+    x = resolve_name(x, env)
+    if isinstance(x, ast.Name) and x.id in params:
+        return ("set", x.id)
+    if isinstance(x, ast.Attribute) and x.attr == "_modified":
+        v = resolve_name(x.value, env)
+        if isinstance(v, ast.Name) and v.id in params:
+            return ("map", v.id)
+        if isinstance(v, ast.Call) and not v.args and callee_is(v, f"{recv}._instance_dict"):
+            return ("own", None)
+    return None
+
+
+@R.rule("C48-R6", floor=8, template="T-PATH/T-FLOW",
+        desc="every function that resets `<state>.modified = False` discards the state from the identity map's strong "
+             "_modified set on every path to the reset on which the state is modified and the map was handed in; every call "
+             "of such a function (and of wrappers that pass the hand-in through) hands in an identity map / its _modified "
+             "set, or is reached only for a state that is in no session")
+def r6(ctx):
+    table: Dict[str, _Resetter] = {}
+    # ---- half 1: the resetters
+    for m in ctx.index.all_modules():
+        if not m.relpath.startswith("orm/") or ".modified" not in m.source:
+            continue
+        for f0 in sorted(ctx.index.all_functions(m), key=lambda x: x.key):
+            recvs = sorted({dotted(t.value) for st in walk_stmts(f0.node.body) if isinstance(st, ast.Assign) and const_is(st.value, False)
+                            for t in st.targets if isinstance(t, ast.Attribute) and t.attr == "modified" and dotted(t.value)})
+            if not recvs:
+                continue
+            ctx.require(len(recvs) == 1, f"{f0.key} resets the modified flag of several objects")
+            recv = recvs[0]
+            f = _nf(ctx, f0)
+            g = ctx.cfg(f)
+            env = _bool_env(f.node)
+            resets = attr_store_nodes(g, "modified", lambda v: const_is(v, False), recv)
+            ctx.require(resets, f"{f0.key}: the reset of {recv}.modified was lost in the normal form")
+            key = f"{f0.key}:modified-reset[{recv}]:leaves-modified-set"
+            params = set(f0.params)
+            handles = {}
+            disc = []
+            for n in g.nodes:
+                if n.stmt is None or n.kind in ("with_exit", "handler", "join") or not isinstance(n.stmt, ast.stmt):
+                    continue
+                for part in own_exprs(n.stmt):
+                    for c in calls_in(part):
+                        if isinstance(c.func, ast.Attribute) and c.func.attr in ("discard", "remove") and len(c.args) == 1 and dotted(c.args[0]) == recv:
+                            h = _handle_of(c.func.value, env, params, recv)
+                            if h is not None:
+                                handles[h] = True
+                                disc.append(n.id)
+            if not disc:
+                ctx.violation(key, f"{recv}.modified is reset to False but the state is never discarded from an identity map's _modified set: "
+                                   f"the strong set keeps a clean state whose strong reference is dropped; after the application drops "
+                                   f"the object the next flush fails on the dead state", f0.loc)
+                continue
+            ctx.require(len(handles) == 1, f"{f0.key}: the state is discarded from several different sets ({sorted(handles)})")
+            (kind, handle), = handles
+            linked = {handle} if kind == "map" else set()
+            w = g.must_pass([g.entry], resets, disc, edge_ok=_assuming(g, {"modified": True, "linked": True}, {k: v for k, v in env.items() if k not in linked}, recv=recv, linked=linked))
+            ctx.check(w is None, key,
+                      f"a path resets {recv}.modified on a modified state without discarding it from the _modified set that was handed in "
+                      f"(`{handle or recv + '._instance_dict()'}`): the strong set keeps a clean, weakly referenced state",
+                      f"discarded from `{handle or 'its own identity map'}` ({kind}) on every path to the reset of a modified state", f0.loc, w)
+            ctx.require(f0.name not in table, f"two functions called {f0.name} reset the modified flag")
+            table[f0.name] = _Resetter(f0, handle, kind, "resets the flag")
+    ctx.require(len(table) >= 2, f"only {len(table)} function(s) that reset <state>.modified = False and discard from a _modified set found")
+
+    # ---- half 2: the call sites (fixpoint over wrappers that pass the hand-in through)
+    def arg_for(call, r: _Resetter):
+        """the expression handed in for r.handle at `call`, None when absent"""
+        for k in call.keywords:
+            if k.arg == r.handle:
+                return k.value
+            if k.arg is None:
+                return k.value      # **kwargs: unknown
+        ps = list(r.f.params)
+        if r.f.cls is not None and "staticmethod" not in r.f.decorators and isinstance(call.func, ast.Attribute):
+            ps = ps[1:]
+        if r.handle in ps:
+            i = ps.index(r.handle)
+            if any(isinstance(a, ast.Starred) for a in call.args[:i + 1]):
+                return call.args[0]
+            if i < len(call.args):
+                return call.args[i]
+        return None
+
+    def is_identity_map(e, kind, env, depth=0):
+        e = resolve_name(e, env)
+        if kind == "set":
+            return isinstance(e, ast.Attribute) and e.attr == "_modified" and is_identity_map(e.value, "map", env)
+        if isinstance(e, ast.Attribute) and e.attr == "identity_map":
+            return True
+        return isinstance(e, ast.Call) and not e.args and isinstance(e.func, ast.Attribute) and e.func.attr == "_instance_dict"
+
+    done = set()
+    work = sorted(table)
+    seen_keys: Dict[str, int] = {}
+    while work:
+        name = work.pop(0)
+        if name in done:
+            continue
+        done.add(name)
+        r = table[name]
+        defs_named = [fi for fi in ctx.index.all_functions() if fi.name == name]
+        ctx.require(len(defs_named) == 1, f"several functions are called {name}: call sites cannot be attributed")
+        sites = calls_of_name(ctx.index, name)
+        ctx.require(sites is not None, f"{name} is also passed around as a value: its call sites cannot be enumerated")
+        for ok_, m, call in sorted(sites, key=lambda t: (t[1].relpath, t[2].lineno, t[2].col_offset)):
+            pm = m.parents()
+            chain_ = _enclosing_fn_chain(pm, call)
+            q = qualname(pm, call) or "<module>"
+            base = f"{m.relpath}::{q}:{name}()"
+            seen_keys[base] = seen_keys.get(base, 0) + 1
+            key = base + (f"#{seen_keys[base]}" if seen_keys[base] > 1 else "") + ":identity-map-handed-in"
+            loc = f"{m.path}:{call.lineno}"
+            if chain_:
+                ctx.functions_analysed.add(ok_)
+            if r.kind == "own":
+                # (kept as an instance so that the count does not depend on where the resetter finds the set)
+                ctx.ok(key, f"{r.f.qualname} discards from the state's own identity map: nothing to hand in")
+                continue
+            env = _scope_env(chain_)
+            a = arg_for(call, r)
+            a_res = resolve_name(a, env) if a is not None else None
+            if a_res is not None and not const_is(a_res, None):
+                if isinstance(a_res, ast.Name) and chain_ and a_res.id in _fn_params(chain_[0]) and len(chain_) == 1 and ctx.index.has(ok_):
+                    # a wrapper that passes its own parameter through: its callers owe the identity map
+                    wf = ctx.func(ok_)
+                    if wf.name not in table:
+                        table[wf.name] = _Resetter(wf, a_res.id, r.kind, f"passes `{a_res.id}` through to {name}()")
+                        work.append(wf.name)
+                    ctx.ok(key, f"passes its own parameter `{a_res.id}` through (its callers are instances of this rule)")
+                    continue
+                if is_identity_map(a_res, r.kind, env):
+                    ctx.ok(key, f"hands in `{unparse(a_res)}`")
+                    continue
+                ctx.require(False, f"{key}: cannot tell what `{unparse(a)}` (handed in as `{r.handle}`) is")
+            # nothing handed in (absent with a None default, or None): only for a state that is in no session
+            if a is None:
+                ctx.require(_param_default_is_none(r.f.node, r.handle) is True, f"{key}: `{r.handle}` not found among the arguments")
+            state_recv = dotted(call.func.value) if isinstance(call.func, ast.Attribute) else None
+            w = "no receiver"
+            if state_recv and chain_ and not (state_recv.split(".")[0][:1].isupper()):
+                fn = chain_[0]
+                g = ctx.cfg(fn)
+                cn = [n.id for n in g.nodes if n.stmt is not None and isinstance(n.stmt, ast.stmt) and n.kind not in ("with_exit", "handler", "join")
+                      and any(c is call for part in own_exprs(n.stmt) for c in calls_in(part))]
+                ctx.require(cn, f"{key}: call not found in the CFG")
+                w = g.witness([g.entry], cn, edge_ok=_assuming(g, {"attached": True}, single_defs(fn), recv=state_recv))
+                w = None if w is None else g.describe_path(w)
+            ctx.check(w is None, key,
+                      f"`{unparse(call)[:120]}` resets the modified flag (and drops the strong reference) of a state that may be in a session "
+                      f"without handing in that session's identity map{'' if r.kind == 'map' else chr(39) + 's _modified set'} (`{r.handle}` of "
+                      f"{r.f.qualname}): the state stays in IdentityMap._modified, clean and only weakly referenced -- when the application "
+                      f"drops the object, the next flush finds a dead state there and fails, losing every other pending change of that flush",
+                      "reached only when the state is in no session", loc, w if isinstance(w, list) else None)
+
+
 # ---------------------------------------------------------------------- self-test battery
 R.mutant("modified-event-strong-ref-when-unattached", STATE, sub("            if self.session_id:\n                self._strong_obj = inst\n\n                # if identity", "            if not self.session_id:\n                self._strong_obj = inst\n            else:\n                # if identity"), "C48-R1")
 R.mutant("modified-event-strong-ref-only-first", STATE, sub("            if self.session_id:\n                self._strong_obj = inst\n\n                # if identity map already had modified objects,\n                # assume autobegin already occurred, else check\n                # for autobegin\n                if not has_modified:\n",
@@ -819,3 +1033,51 @@ R.mutant("benign-loader-fresh-state-created-before-nested-block", "orm/loading.p
 R.mutant("loader-fresh-state-rebound-before-attach", "orm/loading.py", sub(
     "                # attach instance to session.\n                state.session_id = session_id\n",
     "                # attach instance to session.\n                if refresh_state is not None:\n                    state = refresh_state\n                state.session_id = session_id\n"), "C48-R5")
+
+# ---- round 2 (str2-t): seed C48_4 (merge(load=False) resets history without the identity map) and its family (C48-R6);
+# seed C48_3 (partial expire clears the strong reference) for C48-R2
+_MERGE_RESET = "            merged_state._commit_all(merged_dict, self.identity_map)\n"
+R.mutant("seed-merge-without-load-resets-history-without-identity-map", SESSION, sub(
+    _MERGE_RESET, "            merged_state._commit_all(merged_dict)\n"), "C48-R6")
+R.mutant("loader-full-refresh-resets-history-without-identity-map", "orm/loading.py", sub(
+    "                        state._commit_all(dict_, session_identity_map)\n", "                        state._commit_all(dict_)\n"), "C48-R6")
+R.mutant("flush-registers-persistent-without-identity-map", SESSION, sub(
+    "            ((state, state.dict) for state in states), self.identity_map\n        )\n", "            ((state, state.dict) for state in states)\n        )\n"), "C48-R6")
+_DISCARD = "            if instance_dict and state.modified:\n                instance_dict._modified.discard(state)\n"
+R.mutant("commit-all-states-never-discards", STATE, sub(_DISCARD, ""), "C48-R6")
+R.mutant("commit-all-states-discards-only-unmodified", STATE, sub(
+    _DISCARD, "            if instance_dict and not state.modified:\n                instance_dict._modified.discard(state)\n"), "C48-R6")
+R.mutant("expire-resets-flag-keeps-set-membership", STATE, sub(
+    "        if self.modified:\n            modified_set.discard(self)\n            self.committed_state.clear()\n",
+    "        if self.modified:\n            self.committed_state.clear()\n"), "C48-R6")
+R.mutant("transient-to-detached-accepts-attached-state", SESSION, sub(
+    "    if state.session_id or state.key:\n        raise sa_exc.InvalidRequestError(\"Given object must be transient\")\n",
+    "    if state.key:\n        raise sa_exc.InvalidRequestError(\"Given object must be transient\")\n"), "C48-R6")
+R.mutant("merge-reset-wrapper-drops-identity-map", SESSION, chain(
+    sub(_MERGE_RESET, "            self._reset_history(merged_state, merged_dict)\n"),
+    sub(_AFTER_ATTACH_DEF, "    def _reset_history(self, state: InstanceState[Any], dict_: Any) -> None:\n        state._commit_all(dict_, None)\n\n" + _AFTER_ATTACH_DEF),
+), "C48-R6")
+# benign spellings of the same hand-in
+R.mutant("benign-merge-reset-identity-map-by-keyword", SESSION, sub(
+    _MERGE_RESET, "            merged_state._commit_all(\n                merged_dict, instance_dict=self.identity_map\n            )\n"), None)
+R.mutant("benign-merge-reset-identity-map-alias", SESSION, sub(
+    _MERGE_RESET, "            session_map = self.identity_map\n            merged_state._commit_all(merged_dict, session_map)\n"), None)
+R.mutant("benign-merge-reset-through-session-helper", SESSION, chain(
+    sub(_MERGE_RESET, "            self._reset_history(merged_state, merged_dict)\n"),
+    sub(_AFTER_ATTACH_DEF, "    def _reset_history(self, state: InstanceState[Any], dict_: Any) -> None:\n        state._commit_all(dict_, self.identity_map)\n\n" + _AFTER_ATTACH_DEF),
+), None)
+R.mutant("benign-merge-reset-through-mass-variant", SESSION, sub(
+    _MERGE_RESET, "            statelib.InstanceState._commit_all_states(\n                [(merged_state, merged_dict)], self.identity_map\n            )\n"), None)
+R.mutant("benign-commit-all-states-discard-inverted-branch", STATE, sub(
+    _DISCARD, "            if not instance_dict or not state.modified:\n                pass\n            else:\n                tracked = instance_dict._modified\n                tracked.discard(state)\n"), None)
+R.mutant("benign-commit-all-states-discard-from-own-identity-map", STATE, sub(
+    _DISCARD, "            if state.modified:\n                own_map = state._instance_dict()\n                if own_map is not None:\n                    own_map._modified.discard(state)\n"), None)
+R.mutant("benign-transient-check-split", SESSION, sub(
+    "    if state.session_id or state.key:\n        raise sa_exc.InvalidRequestError(\"Given object must be transient\")\n",
+    "    if state.session_id:\n        raise sa_exc.InvalidRequestError(\"Given object must be transient\")\n"
+    "    if state.key:\n        raise sa_exc.InvalidRequestError(\"Given object must be transient\")\n"), None)
+# seed C48_3: a non-owner clears the strong reference while the state stays modified and attached
+_EXPIRE_ATTRS_POP = "            self.committed_state.pop(key, None)\n            if pending:\n                pending.pop(key, None)\n\n"
+R.mutant("seed-partial-expire-clears-strong-reference", STATE, sub(
+    _EXPIRE_ATTRS_POP + "        self.manager.dispatch.expire(self, attribute_names)\n",
+    _EXPIRE_ATTRS_POP + "        if not self.committed_state:\n            self._strong_obj = None\n\n        self.manager.dispatch.expire(self, attribute_names)\n"), "C48-R2")
